@@ -207,4 +207,47 @@ mod verif_c01_wit {
         }
         assert!(checked >= 40, "only {} routes were returned and checked", checked);
     }
+
+    /// C02 / C05 (least cost): on a world where the FIRST label a vertex gets is not its least one (relabelling and re-queueing are needed), a tree search labels every
+    /// reachable vertex with its least cost -- the cost accumulated along the tree's own chain of parent links equals the shortest distance computed by an independent
+    /// all-pairs closure -- for both algorithms and both directions; and a search towards a destination reports that same least cost
+    #[test]
+    fn c02_wit_tree_labels_are_least_costs() {
+        use crate::model::unit::as_f64::AsF64;
+        // 0 -> 2 directly is long (10) but found first; 0 -> 1 -> 2 is short (2): vertex 2 is relabelled after it was queued; 2 -> 3 -> 4 hang behind it;
+        // 0 -> 5 (3) and 1 -> 5 (1): 5 relabelled; 5 -> 4 (1) competes with 3 -> 4; 4 -> 0 closes a cycle; 6 only leaves
+        let edges = [(0, 2, 10.0), (0, 1, 1.0), (1, 2, 1.0), (2, 3, 1.0), (3, 4, 4.0), (0, 5, 3.0), (1, 5, 1.0), (5, 4, 1.5), (4, 0, 1.0), (6, 0, 2.0), (2, 5, 0.25)];
+        let n = 7usize;
+        let si = W::instance(W::graph(n, &edges), Arc::new(NoRestriction {}), TerminationModel::IterationsLimit { limit: 1000 });
+        let inf = f64::INFINITY;
+        let mut dist = vec![vec![inf; n]; n];
+        for v in 0..n { dist[v][v] = 0.0; }
+        for (a, b, l) in edges.iter() { if *l < dist[*a][*b] { dist[*a][*b] = *l; } }
+        for k in 0..n { for i in 0..n { for j in 0..n { if dist[i][k] + dist[k][j] < dist[i][j] { dist[i][j] = dist[i][k] + dist[k][j]; } } } }
+        let q = serde_json::json!({});
+        let chain_cost = |tree: &HashMap<VertexId, SearchTreeBranch>, origin: usize, v: usize| -> f64 {
+            let (mut cur, mut c, mut steps) = (VertexId(v), 0.0, 0);
+            while cur.0 != origin { let b = tree.get(&cur).expect("parent is an entry"); c += b.edge_traversal.total_cost().as_f64(); cur = b.terminal_vertex; steps += 1; assert!(steps <= n); }
+            c
+        };
+        for alg in [SearchAlgorithm::Dijkstra, SearchAlgorithm::AStarAlgorithm { weight_factor: None }] {
+            for s in 0..n {
+                let r = alg.run_vertex_oriented(VertexId(s), None, &q, &Direction::Forward, &si).unwrap();
+                for t in 0..n { if t != s && dist[s][t] < inf {
+                    let c = chain_cost(&r.trees[0], s, t);
+                    assert!((c - dist[s][t]).abs() < 1e-9, "forward tree from {}: vertex {} is labelled through a chain of cost {} but its least cost is {}", s, t, c, dist[s][t]);
+                } }
+                let r = alg.run_vertex_oriented(VertexId(s), None, &q, &Direction::Reverse, &si).unwrap();
+                for t in 0..n { if t != s && dist[t][s] < inf {
+                    let c = chain_cost(&r.trees[0], s, t);
+                    assert!((c - dist[t][s]).abs() < 1e-9, "reverse tree into {}: vertex {} is labelled through a chain of cost {} but its least cost is {}", s, t, c, dist[t][s]);
+                } }
+                for t in 0..n { if t != s && dist[s][t] < inf {
+                    let r = alg.run_vertex_oriented(VertexId(s), Some(VertexId(t)), &q, &Direction::Forward, &si).unwrap();
+                    let c: f64 = r.routes[0].iter().map(|e| e.total_cost().as_f64()).sum();
+                    assert!((c - dist[s][t]).abs() < 1e-9, "route {} -> {} costs {} but the least cost is {}", s, t, c, dist[s][t]);
+                } }
+            }
+        }
+    }
 }
